@@ -43,6 +43,9 @@ def run(ctx: Ctx) -> None:
     ctx.rule("D6.3", "x written only when accepted; returns y+dy / y")
     ctx.rule("D6.4", "accept guard")
     ctx.rule("D6.5", "solve(): index ranges, skips, wiring, register")
+    ctx.rule("D6.6", "the frequency table is logged under the lengths it "
+             "is indexed by")
+    _h_log(ctx)
     for modn, kern, cls in (EA, FEA):
         k = ctx.repo.func(modn, kern)
         ctx.need(k.njit is not None, f"{kern} is an njit kernel")
@@ -789,3 +792,36 @@ def _solve(ctx: Ctx, sv: FuncInfo, k: FuncInfo, fea: bool,
                f"h has {show(sizes[0]) if sizes else '?'} cells; needs "
                "tour_length_upper_bound + 1 so that every true length "
                "0..UB is a valid index", construct="h table size")
+
+
+
+def _h_log(ctx: Ctx) -> None:
+    """The kernel indexes `h` directly by the tour length (D6.5: h has
+    UB + 1 cells, D6.3/D6.4: `h[y]`, `h[y2]`), so the table is logged with
+    offset 0: `log_h(process, h, ofs)` reports cell i as the objective value
+    i - ofs... i.e. any other offset reports lengths the run never saw."""
+    from sa.srcmodel import bound_args, inline_locals
+    repo = ctx.repo
+    fi = repo.func(FEA[0], f"{FEA[2]}.solve")
+    calls = [c for c in ast.walk(fi.node) if isinstance(c, ast.Call)
+             and ast.unparse(c.func).split(".")[-1] == "log_h"]
+    if not calls:
+        return                      # logging the table is optional
+    for c in calls:
+        ofs = c.args[2] if len(c.args) >= 3 else next(
+            (k.value for k in c.keywords if k.arg in ("ofs", "offset")),
+            None)
+        if ofs is None:
+            ctx.ob("D6.6", fi, c, False, "the offset argument of log_h is "
+                   "not recognised", construct="H table offset")
+            continue
+        v = repo.const(fi.module, inline_locals(fi.node, ofs))
+        ok = isinstance(v, int) and not isinstance(v, bool) and v == 0
+        ctx.ob("D6.6", fi, c, ok,
+               "log_h(process, h, 0): cell i is reported as tour length i"
+               if ok else
+               (f"log_h is given the offset `{ast.unparse(ofs)}`, but the "
+                "kernel addresses h directly by the tour length (h[y]): "
+                "the logged lengths are shifted" if v is None or isinstance(
+                    v, int) else "the offset argument of log_h is not "
+                "recognised"), construct="H table offset")
